@@ -114,6 +114,7 @@ def run(tier, seed):
                     continue
                 decide(ctx, drv, name, args, cb, out["coefs"], bound_for(name, args), {"generator": name, "args": args, "chebyshev_basis": cb})
     ctx.assumptions = ["monomial outputs are converted exactly to the Chebyshev basis by the model (poly2cheb_spec)"]
+    ctx.extra["argument_types"] = dict(G.ARG_TYPES)
     return ctx.finish(
         rule="12 generators with ensure_bounded=True x both bases x sampled valid argument tuples with max_scale in (0,1]; every returned polynomial is "
              "decided by the proven sup certificate (bound * (1+1e-3)); distinct = distinct (generator, arguments, basis)")
